@@ -5,6 +5,10 @@ ROOT = os.path.dirname(os.path.dirname(os.path.abspath(__file__)))
 
 # id -> (technique, level text, level note, design ref)
 CHECKS = {
+ "C08": ("model-based: sources are spelled from generated segment trees and compared with reference whitespace semantics on the segment list (exact output); metamorphic re-spelling of the same tree with a different accepted delimiter set; identity on sources without a start delimiter",
+         "Exploration: 400k segment trees under the default delimiters, 200k under generated accepted delimiter sets (ASCII pairs and two-byte characters, ends possibly equal to each other or to a start), 200k plain texts (quick; x20 thorough); text heavy in ASCII/Unicode whitespace, lone delimiter characters, end delimiters and characters sharing a lead or continuation byte with a two-byte delimiter; an independent `-` on every side of expressions, comments, raw tags (four positions), set tags and if/for/filter/set-block pairs.",
+         "Trusted base: the 60-line reference semantics in harness/src/props/c08.rs. Sources where a join accidentally forms a start delimiter or a comment/raw body contains its terminator early are excluded by construction and counted; whitespace means Unicode White_Space.",
+         "DESIGN.md section 4 C08"),
  "C09": ("translation-validation style differential through cfg-guarded hooks: every generated template set is compiled with the fusion pass off and on; (1) structural lock-step walk over the recorded instruction listings (only LoadName LoadAttr* [WriteTop] groups merged, no absorbed jump target, every jump lands on the image of its target), (2) both compilations rendered with the same generated contexts must agree",
          "Exploration: 570 fixed jump-next-to-path shapes x 18 contexts enumerated completely, then 210k generated sets (quick; x25 thorough): path-heavy programs (and/or, ternaries, if/elif, loops with break/continue, comprehensions, kwargs, captures, ?. and __tera_context), the C02 expression and C03 statement generators, inheritance and component chunks; ~300k chunks structurally checked per quick run.",
          "Trusted base: the hooks in tera/src/verif.rs (additive, dead without --cfg tera_verif) and the Debug listing of Chunk. Contexts in which the outcome depends on map iteration order are filtered out with the reference interpreter (used as a filter only) and counted.",
